@@ -393,6 +393,14 @@ impl Check for C13 {
         } else {
             None
         };
+        // (a request that follows a cancelled disconnect() on an otherwise idle session gets
+        // furthest: nothing else is queued that would stop it earlier)
+        if other_op.is_some() && rng.chance(1, 2) {
+            if let Some(i) = prefix.iter().position(|s| matches!(s, Step::Connect(_))) {
+                prefix.truncate(i + 1);
+                out.count("requests_after_a_cancelled_disconnect_on_an_idle_session", 1);
+            }
+        }
         let other_at = std::cell::Cell::new(None::<usize>);
         let skip_flag = std::cell::Cell::new(false);
         let run = |cancels: Vec<usize>| -> (RunLog, Shared, Vec<usize>) {
